@@ -147,6 +147,29 @@ def resToks (s : Stmt) : Res → List Tok
   | .val v => valToks v
   | .int v => [.num v]
 
+def mkHeap (zs : List Int) (qs : List (Int × Int)) : Heap := fun l =>
+  match l with
+  | .v i => zs.getD i 0
+  | .num i => (qs.getD i (0, 1)).1
+  | .den i => (qs.getD i (0, 1)).2
+
+/-- run the model of the expression-template strategy (both answers of `__builtin_constant_p`) on an
+    mpz statement and compare the target with the temporaries semantics -/
+def strategyOk (h : Heap) (s : Stmt) : Bool :=
+  let chk (i : Nat) (e : E) : Bool :=
+    if e.ty = .z then
+      [false, true].all fun c =>
+        match evalZ c 4 (.v i) e h, evalTmp h.abs e with
+        | some h', some (.z v) => h' (.v i) == v && [0, 1, 2, 3].all fun j => j == i || h' (.v j) == h (.v j)
+        | none, none => true
+        | _, _ => false
+    else true
+  match s with
+  | .assign .z i e => chk i e
+  | .compound o .z i r => chk i (expand o .z i r)
+  | .compoundSh o .z i n => chk i (.sh o (.zv i) n)
+  | _ => true
+
 def handle : Handler
   | "cxx_eval", .str bs :: rest =>
     match nums rest with
@@ -159,6 +182,7 @@ def handle : Handler
       | some (s, { toks := [], leaves := [] }) =>
         if !s.wt then some [.err "illtyped"] else
         let env := mkEnv [z0, z1, z2, z3] [(a, b), (c, d), (e, f)]
+        if !strategyOk (mkHeap [z0, z1, z2, z3] [(a, b), (c, d), (e, f)]) s then some [.err "strategy"] else
         match execTmp env s with
         | none => some [.err "fpe"]
         | some r => some (resToks s r)
